@@ -37,6 +37,8 @@ structure PInv (ex : Pid → Prop) (fr : Pid → Option Frame) (w : World) : Pro
   /-- the same for event waiters -/
   e1 : ∀ h l q, (h, l) ∈ w.evWaiters → q ∈ l → ¬ ex q → Await.event h ∈ (w.proc q).awaits
   en : (w.evWaiters.map (·.1)).Nodup ∧ ∀ h l, (h, l) ∈ w.evWaiters → l.Nodup
+  /-- waiters are only registered with scheduled events -/
+  es : ∀ h l, (h, l) ∈ w.evWaiters → h ∈ keys w.ev.pending
   /-- a pending process-end wake-up belongs to a process that awaits a process and is no longer registered with it -/
   op : ∀ e ∈ w.ev.pending, e.item.a = aProc → ∀ p, e.item.b = p + 1 → ¬ ex p →
     ∃ q, Await.proc q ∈ (w.proc p).awaits ∧ p ∉ (w.proc q).waiters
@@ -70,8 +72,10 @@ theorem PInv.congr {ex : Pid → Prop} {fr : Pid → Option Frame} {w w' : World
     (he : ∀ e' ∈ w'.ev.pending, e'.item.a = aProc ∨ e'.item.a = aEvent → ∃ e ∈ w.ev.pending, e.key = e'.key ∧ e.item = e'.item)
     (hei : EvInv w'.ev)
     (hkeys : ∀ e' ∈ w'.ev.pending, e'.key ≤ w.ev.counter → e'.key ∈ keys w.ev.pending)
-    (hctr : w.ev.counter ≤ w'.ev.counter) : PInv ex fr w' where
+    (hctr : w.ev.counter ≤ w'.ev.counter)
+    (hkeep : ∀ k ∈ keys w.ev.pending, k ∈ keys w'.ev.pending) : PInv ex fr w' where
   ei := hei
+  es := fun h l hm => hkeep h (hp.es h l (by rw [← hw]; exact hm))
   oh := by
     intro e' he' ha p hb hx h hh
     obtain ⟨e, hem, _, hi⟩ := he e' he' (Or.inr ha)
@@ -132,6 +136,7 @@ theorem PInv.same {ex : Pid → Prop} {fr : Pid → Option Frame} {w w' : World}
     (hw : w'.evWaiters = w.evWaiters) (he : w'.ev = w.ev) : PInv ex fr w' :=
   hp.congr hc hw (by rw [he]; exact fun e h _ => ⟨e, h, rfl, rfl⟩) (by rw [he]; exact hp.ei)
     (by rw [he]; exact fun e h _ => Event.mem_keys.2 ⟨e, h, rfl⟩) (by rw [he]; exact Nat.le_refl _)
+    (by rw [he]; exact fun _ h => h)
 
 theorem PInv.fail {ex : Pid → Prop} {fr : Pid → Option Frame} {w : World} (h : PInv ex fr w) (m : String) : PInv ex fr (w.fail m) :=
   h.same (sameCtl_of_procs (by simp)) (by simp) (by simp)
@@ -164,6 +169,7 @@ theorem PInv.setGuardQ {ex : Pid → Prop} {fr : Pid → Option Frame} {w : Worl
 theorem PInv.pushEv_other {ex : Pid → Prop} {fr : Pid → Option Frame} {w : World} (h : PInv ex fr w) (a s : Nat) (sig t pri : Int)
     (ht : w.now ≤ t) (ha : a ≠ aProc ∧ a ≠ aEvent) : PInv ex fr (pushEv w a s sig t pri) := by
   refine h.congr (SameCtl.refl _) rfl ?_ (pushEv_evinv a s sig t pri ht h.ei) ?_ (by simp)
+    (fun k hk => by simp only [pushEv_pending, keys, List.map_cons]; exact List.mem_cons_of_mem _ hk)
   · intro e' he' hk
     simp only [pushEv_pending, List.mem_cons] at he'
     rcases he' with rfl | he'
@@ -193,7 +199,12 @@ theorem PInv.reprioEv {ex : Pid → Prop} {fr : Pid → Option Frame} {w : World
   · cases hr
   · simp only [Except.ok.injEq] at hr
     subst hr
-    refine h.congr (SameCtl.refl _) rfl ?_ hinv ?_ (Nat.le_refl _)
+    refine h.congr (SameCtl.refl _) rfl ?_ hinv ?_ (Nat.le_refl _) ?_
+    rotate_left 2
+    · intro k' hk'
+      obtain ⟨e, he, rfl⟩ := Event.mem_keys.1 hk'
+      refine Event.mem_keys.2 ⟨_, List.mem_map.2 ⟨e, he, rfl⟩, ?_⟩
+      split <;> rfl
     · intro e' he' _
       simp only [List.mem_map] at he'
       obtain ⟨e, he, rfl⟩ := he'
@@ -273,7 +284,8 @@ theorem proc_congr {w w' : World} (h : w'.procs = w.procs) (p : Pid) : w'.proc p
 theorem PInv.popWake {ex : Pid → Prop} {fr : Pid → Option Frame} {w w1 : World} (hp : PInv ex fr w) (h : Nat) (sig : Int)
     (hprocs : w1.procs = w.procs) (hwt : w1.evWaiters = w.evWaiters.filter (·.1 ≠ h))
     (hsub : ∀ e ∈ w1.ev.pending, e ∈ w.ev.pending) (hei : EvInv w1.ev)
-    (hh : h ∈ keys w.ev.pending) (hgone : h ∉ keys w1.ev.pending) (hctr : w1.ev.counter = w.ev.counter) :
+    (hh : h ∈ keys w.ev.pending) (hgone : h ∉ keys w1.ev.pending) (hctr : w1.ev.counter = w.ev.counter)
+    (hkeep : ∀ k ∈ keys w.ev.pending, k ≠ h → k ∈ keys w1.ev.pending) :
     PInv ex fr (pushAll w1 (evWakes w (evWaitersOf w h) sig)) := by
   have hpr : ∀ x, (pushAll w1 (evWakes w (evWaitersOf w h) sig)).proc x = w.proc x := fun x => by
     rw [pushAll_proc]; exact proc_congr hprocs x
@@ -306,7 +318,12 @@ theorem PInv.popWake {ex : Pid → Prop} {fr : Pid → Option Frame} {w w1 : Wor
            fb := fun x hxx hx => by rw [procAw_congr hsc, evAw_congr hsc]; rw [hpr] at hx; exact hp.fb x hxx hx,
            w1 := fun x q hq hx => by rw [hpr] at hq ⊢; exact hp.w1 x q hq hx,
            wn := fun x => by rw [hpr]; exact hp.wn x,
-           e1 := ?_, en := ?_, op := ?_, oe := ?_, up := ?_, ue := ?_, oh := ?_ }
+           e1 := ?_, en := ?_, op := ?_, oe := ?_, up := ?_, ue := ?_, oh := ?_,
+           es := fun h' l hm => by
+             simp only [pushAll_evWaiters, hwt, List.mem_filter] at hm
+             have hne : h' ≠ h := by simpa using hm.2
+             obtain ⟨e2, he2, hk2⟩ := Event.mem_keys.1 (hkeep h' (hp.es h' l hm.1) hne)
+             exact Event.mem_keys.2 ⟨e2, by simp only [pushAll_pending]; exact List.mem_append_right _ he2, hk2⟩ }
   · intro h' l q hm hq hx
     simp only [pushAll_evWaiters, hwt, List.mem_filter] at hm
     rw [hpr]; exact hp.e1 h' l q hm.1 hq hx
@@ -410,6 +427,9 @@ theorem PInv.evCancel_fst {ex : Pid → Prop} {fr : Pid → Option Frame} {w : W
       (fun hm => by
         obtain ⟨e2, he2, hk2⟩ := Event.mem_keys.1 hm
         exact (mem_remove.1 he2).2 hk2) rfl
+      (fun k hk' hne => by
+        obtain ⟨e2, he2, hk2⟩ := Event.mem_keys.1 hk'
+        exact Event.mem_keys.2 ⟨e2, mem_remove.2 ⟨he2, by rw [hk2]; exact hne⟩, hk2⟩)
   · exact hp
 
 end CimbaModel.Sim.S3
